@@ -172,4 +172,20 @@ example : (mjxKbi rpw false 0.002 0.01 (-10) 0.9 0.95 0.001 0.5 2 0).2.1 ≠ (cK
     maximp_real, minval_real, k_mul, k_div, k_neg, k_lt, k_le]
   norm_num [max_def, min_def]
 
+/-! ### implicit joint damping of `euler`, sparse storage -/
+
+/-- **the damping of dof i lands on the diagonal**: the entry of `M_colind` at `M_rowadr[i] + M_rownnz[i] - 1` is i -/
+theorem mjx_euler_damping_on_diagonal (ps : List Int) (i : Nat) (hi : i < ps.length) :
+    (sparseRows ps).flatten[diagAdr (sparseRows ps) i]? = some i := by
+  have hlen := sparseRows_length ps
+  obtain ⟨r, hr⟩ : ∃ r, (sparseRows ps)[i]? = some r := ⟨(sparseRows ps)[i]'(by omega), List.getElem?_eq_getElem (by omega)⟩
+  have hlast := sparseRows_last ps i r hr
+  have hne : r ≠ [] := by intro h; subst h; simp at hlast
+  unfold diagAdr
+  rw [hr]; simp only [Option.getD_some]
+  rw [flatten_last _ i r hr hne, hlast]
+
+/-- the start of the row is NOT the diagonal as soon as the dof has an ancestor dof (chain 0 <- 1) -/
+example : (sparseRows [-1, 0]).flatten[rowAdr (sparseRows [-1, 0]) 1]? = some 0 := by decide
+
 end MjProof.C43
